@@ -27,10 +27,11 @@ QUICK_SEQS = [
 def subharnesses(tier):
     subs = []
     ops = [o + c + n for o in 'CD' for c in '12' for n in 'ab']
-    maxlen = 3 if tier == 'quick' else 4
+    maxlen = 4
     seqs = [' '.join(s) for k in range(1, maxlen + 1)
             for s in itertools.product(ops, repeat=k)
-            if s[0][0] == 'C' and (k < 4 or s[0] == 'C1a')]
+            if s[0][0] == 'C' and (k < 4 or (s[0] == 'C1a' and (
+                tier == 'thorough' or s[1][0] == 'C')))]
     for s in seqs:
         for budget_ in ((0, 1) if tier == 'quick' else (0, 1, 2)):
             subs.append(('seq-%s-expiries%d' % (s.replace(' ', '_'), budget_),
